@@ -151,6 +151,8 @@ def run(check):
             sc = [["deliver", 0]] + [["drop", 0]] * 12 + [["timer", "s"]] + [["drop", 0]] * 6
             jobs.append({"cfg": {"mds": mds, "chain": False, "smallcert": pad, "on_negotiated": {"s": [3, 9000]}}, "script": sc,
                          "seed": 23, "hs_adv": True, "profile": "corpus-half-rtt-data-silent-client"})
+    # regression corpus: the script with which the thorough tier found the ACK-of-ACK PING in an Initial datagram that cannot be padded
+    jobs.append({'cfg': {'mds': 1280, 'chain': False, 'smallcert': True, 'cc': 'reno', 'version': 'v1'}, 'script': [['write', 'c', 2, 1100, False], ['deliver', 4], ['spoof', 5, 0], ['drop', 3], ['write', 's', 3, 1300, False], ['spoof', 3, 2], ['dup', 2], ['changecid', 's'], ['deliver', 6], ['drop', 0], ['drop', 1], ['write', 'c', 4, 200, False], ['drop', 7], ['write', 's', 3, 5, False], ['write', 'c', 2, 30, False], ['write', 'c', 2, 2, False], ['write', 'c', 0, 3000, True], ['deliver', 5], ['timer', 's'], ['dup', 2], ['drop', 4], ['drop', 2], ['deliver', 7], ['changecid', 's'], ['corrupt', 5, 60], ['drop', 0], ['timer', 's'], ['deliver', 5], ['corrupt', 3, 1150], ['timer', 'c'], ['deliver', 0], ['spoof', 6, 0], ['write', 's', 1, 3000, True], ['spoof', 6, 1], ['spoof', 3, 0], ['write', 'c', 0, 200, False], ['drop', 6], ['drop', 7], ['timer', 's'], ['spoof', 6, 1]], 'seed': 1071925593, 'hs_adv': True, 'profile': 'corpus-ack-of-ack-ping-unpaddable-initial'})
     jobs += zrtt_jobs(rnd, 1 if check.quick else 20)
     results = runner.run_many(job_fn, jobs)
     check.cov["zero_rtt_packets_on_the_wire"] = sum(r["zrtt"] for r in results)
